@@ -202,3 +202,16 @@ Proof.
       apply Z.leb_le in Hwf. lia.
   - unfold received, forwarded, event_time. rewrite Ed. reflexivity.
 Qed.
+
+(* ------------------------------------------------------------------ batches: pointwise *)
+Theorem batch_pointwise : forall reqs,
+  Forall creq_ok reqs ->
+  forward_batch std_cfg (map creq_input reqs) = map (fun r => Some (creq_instant r)) reqs.
+Proof.
+  intros reqs H. unfold forward_batch. rewrite map_map. apply map_ext_in. intros r Hin.
+  rewrite Forall_forall in H. specialize (H r Hin). destruct H as [Hr Hk].
+  destruct r as [k t|k off zulu t|f t]; cbn [creq_input creq_instant] in *.
+  - destruct Hk as [Hk Hp]. apply received_epoch; assumption.
+  - destruct Hk as (Hk & Ho & Hp). apply received_rfc; assumption.
+  - destruct Hk as [H32 H64]. apply received_msgp; assumption.
+Qed.
